@@ -192,7 +192,7 @@ class Ctx:
                 "inconclusive": self.inconcl, "cases_run": self.cases_run}
 
 
-def run_repo_tests_under_monitors(ctx, paths, prefix, workers=1, timeout=1500, only=None):
+def run_repo_tests_under_monitors(ctx, paths, prefix, workers=1, timeout=1500, only=None, semantic=()):
     """Run some of the repository's own tests with the class-level monitors of vlib.livemon switched on and feed what the monitors
     observed into ctx (the tests' own pass/fail is ignored).  `only`: keep monitors whose name starts with one of these prefixes."""
     import tempfile
@@ -202,12 +202,14 @@ def run_repo_tests_under_monitors(ctx, paths, prefix, workers=1, timeout=1500, o
     env = dict(os.environ)
     env["PYTHONPATH"] = REPO + os.pathsep + VERIF
     env["VERIF_LIVEMON_OUT"] = out
+    env["VERIF_LIVEMON_SEMANTIC"] = ",".join(semantic)
     env.setdefault("OMP_NUM_THREADS", "1")
     cmd = [PY, "-m", "pytest", "-q", "-p", "no:cacheprovider", "-p", "vlib.pytest_livemon", "--timeout=600"] + (["-n", str(workers)] if workers > 1 else []) + list(paths)
     try:
         subprocess.run(cmd, cwd=REPO, env=env, stdout=subprocess.DEVNULL, stderr=subprocess.DEVNULL, timeout=timeout)
     except subprocess.TimeoutExpired:
-        ctx.inconclusive(f"repository tests under monitors timed out after {timeout}s: {paths}")
+        # a workload cap, not a verdict: the monitors flush periodically, what they saw so far is used (REQUIRED decides)
+        ctx.note("repo_tests_time_cap_reached")
     counts, viol = livemon.read_results(out)
     try:
         os.remove(out)
@@ -227,6 +229,15 @@ def run_repo_tests_under_monitors(ctx, paths, prefix, workers=1, timeout=1500, o
     ctx.ev(prefix + "observations_total", 0)
     ctx.monitors[prefix + "observations_total"] = ctx.monitors.get(prefix + "observations_total", 0) + total
     return total
+
+
+def repo_tests_case(case, ctx, quick_paths, thorough_paths, only, semantic=(), workers_thorough=6, timeout=1500):
+    """Shared body of the 'repo_tests' case of several property modules."""
+    paths = quick_paths if case["tier"] == "quick" else thorough_paths
+    n = run_repo_tests_under_monitors(ctx, paths, "live_", workers=1 if case["tier"] == "quick" else workers_thorough, only=only,
+                                      semantic=semantic, timeout=timeout)
+    ctx.nontrivial(("repo_tests", tuple(paths)))
+    ctx.sample({"sub": "repo_tests", "paths": paths, "monitor_observations": n})
 
 
 def tangelo_in_traceback(tb):
